@@ -131,6 +131,28 @@ def _frame(fs, spec, **kw):
     return b, fr
 
 
+def filter_deviates(env, spec, internal, ufun, ignore_four):
+    """exact condition under which the shipped junction filter deviates from the property (recorded finding)."""
+    def nz(v):
+        if env.mode == "sym":
+            from symx.core import SymReal, lift
+            import z3
+            return SymReal(z3.If(lift(v) != 0, z3.RealVal(1), z3.RealVal(0)))
+        return 1 if v != 0 else 0
+    deviates = False
+    for pn in spec.points:
+        ls = [ln for ln in spec.lines_at(pn) if ln in internal]
+        if len(spec.cells_of_point(pn)) < 3 or not ls:
+            continue
+        k = len(ls)
+        nx = sum((nz(ufun(ln, pn)[0]) for ln in ls[1:]), nz(ufun(ls[0], pn)[0]))
+        ny = sum((nz(ufun(ln, pn)[1]) for ln in ls[1:]), nz(ufun(ls[0], pn)[1]))
+        expected = k >= 3 and not (bool(ignore_four) and k >= 4)
+        shipped = ((nx >= 3) | (ny >= 3)) & (True if not ignore_four else ((nx < 4) & (ny < 4)))
+        deviates = deviates | (shipped != expected)
+    return deviates
+
+
 def matrix(env, topo, ignore_four, n_int=3):
     import forsys as fs
     import forsys.fmatrix as fmx
@@ -154,23 +176,7 @@ def matrix(env, topo, ignore_four, n_int=3):
     # nx / ny non-zero x / y components among them,
     #   expected rows  <=>  k >= 3 and not (ignore_four and k >= 4)
     #   shipped filter <=>  (nx >= 3 or ny >= 3) and (not ignore_four or (nx < 4 and ny < 4))
-    def nz(v):
-        if env.mode == "sym":
-            from symx.core import SymReal, lift
-            import z3
-            return SymReal(z3.If(lift(v) != 0, z3.RealVal(1), z3.RealVal(0)))
-        return 1 if v != 0 else 0
-    deviates = False
-    for pn in spec.points:
-        ls = [ln for ln in spec.lines_at(pn) if ln in internal]
-        if len(spec.cells_of_point(pn)) < 3 or not ls:
-            continue
-        k = len(ls)
-        nx = sum((nz(vs.u(ln, pn)[0]) for ln in ls[1:]), nz(vs.u(ls[0], pn)[0]))
-        ny = sum((nz(vs.u(ln, pn)[1]) for ln in ls[1:]), nz(vs.u(ls[0], pn)[1]))
-        expected = k >= 3 and not (bool(ignore_four) and k >= 4)
-        shipped = ((nx >= 3) | (ny >= 3)) & (True if not ignore_four else ((nx < 4) & (ny < 4)))
-        deviates = deviates | (shipped != expected)
+    deviates = filter_deviates(env, spec, internal, lambda ln, pn: vs.u(ln, pn), ignore_four)
     obs.append(Ob("rows-exactly-for-junctions-of-3-cells-and-3-interfaces",
                   sorted(rows) == sorted(used) and M.shape[0] == 2 * len(used)
                   and sorted(rows.values()) == list(range(0, 2 * len(used), 2)),
